@@ -1,5 +1,6 @@
 (* Net/PluginChainFacts.v — lemmas about Net/PluginChain.v. *)
 From PM Require Import Lib.Bytes Lib.BytesFacts Lib.PyStr Net.Auth Net.AuthFacts Net.PluginChain.
+From Coq Require Import ZArith.
 
 (* ------------------------------------------------------------------ logs only grow; classes of events *)
 Definition delta_ok (Q : event -> bool) (l l' : log) : Prop := exists d, l' = l ++ d /\ forallb Q d = true.
@@ -312,8 +313,9 @@ Definition q_conn (e : event) : bool := is_call_of DNS e || is_connect e.
 Lemma connect_upstream_dok cf ps r c l : delta_ok q_conn l (fst (connect_upstream cf ps r c l)).
 Proof.
   unfold connect_upstream. destruct (nonempty (rq_host r)) as [host|]; [|apply dok_refl].
-  destruct (rq_port r) as [port|]; [|apply dok_refl].
-  destruct (port =? 0); [apply dok_refl|]. destruct (negb (utf8_valid host)); [apply dok_refl|].
+  destruct (rq_port r) as [zport|]; [|apply dok_refl].
+  destruct (Z.eqb zport 0%Z); [apply dok_refl|]. destruct (negb (Z.ltb 0%Z zport && Z.leb zport 65535%Z)); [apply dok_refl|].
+  set (port := Z.to_N zport). destruct (negb (utf8_valid host)); [apply dok_refl|].
   pose proof (resolve_chain_dok ps host port l) as H. destruct (resolve_chain ps host port l) as [l1 dns]. cbn [fst] in H.
   assert (H' : delta_ok q_conn l l1).
   { eapply dok_weaken; [|exact H]. intros e He. unfold q_conn. now rewrite He. }
